@@ -25,6 +25,23 @@ OuterT(ho, co, hi, ci, hu) ==
        <<"o", <<"opt", InnerT(hi, ci)>>, <<"val", None>>, <<>> >>,
        <<"m", <<"dict", <<"str">>, InnerT(hi, ci)>>, <<"fac", Dct(<<>>)>>, <<>> >> >>,
     Cfg(ho, co)>>
+\* the context flag next to the OTHER code-generation flags, enabled independently on the outer and on the nested class: the
+\* context reaches the nested hooks iff both enabled ADD_SERIALIZATION_CONTEXT, whatever else either of them enabled
+AllHooks == {"pre_ser", "post_ser", "pre_deser", "post_deser"}
+OtherFlags == {"omit_none_flag", "by_alias_flag", "dialect_flag"}
+CfgF(h, fl) == (IF h # {} THEN << <<"hooks", h>> >> ELSE <<>>) \o (IF fl # {} THEN << <<"flags", fl>> >> ELSE <<>>)
+InnerF(fl) == <<"dc", "Inner", << N, <<"s", <<"str">>, <<"val", S("x")>>, <<>> >> >>, CfgF(AllHooks, fl)>>
+OuterF(flo, fli) ==
+  <<"dc", "Outer",
+    << N,
+       <<"inner", InnerF(fli), <<"req">>, <<>> >>,
+       <<"items", <<"list", InnerF(fli)>>, <<"req">>, <<>> >>,
+       <<"u", <<"union", <<AT({}), BT({})>> >>, <<"req">>, <<>> >>,
+       <<"o", <<"opt", InnerF(fli)>>, <<"val", None>>, <<>> >>,
+       <<"m", <<"dict", <<"str">>, InnerF(fli)>>, <<"fac", Dct(<<>>)>>, <<>> >> >>,
+    CfgF(AllHooks, flo)>>
+FlagShapes == { OuterF({"context_flag"} \cup xo, {"context_flag"} \cup xi) : xo \in SUBSET OtherFlags, xi \in SUBSET OtherFlags }
+              \cup { OuterF(xo, {"context_flag"} \cup xi) : xo \in {{"dialect_flag"}, {"by_alias_flag"}}, xi \in {{}, {"omit_none_flag"}} }
 \* Outer refers to Inner by a FORWARD REFERENCE: Outer's methods are compiled on first use (postponed evaluation)
 OuterFwd(ho, hi) ==
   <<"dc", "Outer", << N, <<"inner", <<"fwd", "Inner", InnerT(hi, FALSE)>>, <<"req">>, <<>> >>,
@@ -36,7 +53,7 @@ AudT(h) == <<"dc", "Aud", <<N>>, << <<"mixin", "plain">>, <<"bases", <<RecT>> >>
 MsgT(h) == <<"dc", "Msg", << N, <<"plain", RecT, <<"req">>, <<>> >>, <<"audited", <<"list", AudT(h)>>, <<"req">>, <<>> >>,
                              <<"one", <<"opt", AudT(h)>>, <<"val", None>>, <<>> >> >>, <<>> >>
 Outers == { OuterT(ho, co, hi, ci, hu) : ho \in HookSets, co \in BOOLEAN, hi \in HookSets, ci \in BOOLEAN, hu \in { {}, {"pre_ser", "post_ser", "pre_deser", "post_deser"} } }
-Shapes == Outers \cup { OuterFwd(ho, hi) : ho \in HookSets, hi \in HookSets }
+Shapes == Outers \cup FlagShapes \cup { OuterFwd(ho, hi) : ho \in HookSets, hi \in HookSets }
           \cup { MsgT(h) : h \in HookSets }
           \cup { <<"list", OuterT(h, FALSE, h, FALSE, h)>> : h \in HookSets }
           \cup { <<"union", <<AT(h), BT(h)>> >> : h \in HookSets }
